@@ -14,6 +14,14 @@ def layouts(cfg):
     """write sequences (relative start, length) with a gap inside a file, at the head of the first file,
     at the tail of the last, and spanning whole files"""
     pf = cfg.per_file()
+    if pf < 6:
+        return {
+            "gap-inside-file": [(0, 1), (2 * pf + 2, 1)],
+            "head-of-first-file": [(1, 1)],
+            "tail-of-last-file": [(0, 3 * pf + 1)],
+            "gap-spanning-files": [(0, 2), (5 * pf + 1, 2)],
+            "one-sample": [(pf, 1)],
+        }
     return {
         "gap-inside-file": [(0, 3), (5, 2)],
         "head-of-first-file": [(3, pf - 3)],
@@ -41,57 +49,62 @@ def run(res):
                 continue
             for cx in (False, True):
                 for nsub in (1, 3):
-                    cfg0 = wl.Cfg(100, 1, 1, 100, 150000000000 + 7, True, 0, False, kind, size, order, cx, nsub)
+                    cfgs = [wl.Cfg(100, 1, 1, 100, 150000000000 + 7, True, 0, False, kind, size, order, cx, nsub)]
                     # start 7 samples into a file: 100 Hz, 100 ms files -> 10 samples/file
-                    for lname, segs in layouts(cfg0).items():
-                        n_cells += 1
-                        chdir = os.path.join(work, "c%d" % n_cells, "ch")
-                        ops = []
-                        tag = 1
-                        for (s, ln) in segs:
-                            ops.append(("w", s, ln, tag))
-                            tag += ln
-                        ops.append(("c",))
-                        reports, w = wl.run_impl(cfg0, ops, chdir)
-                        hist = {"cfg": cfg0.as_dict(), "layout": lname, "ops": [list(o) for o in ops]}
-                        res.case((cfg0.key(), lname))
-                        res.count("cell:%s%d%s%s" % (kind, size, order, "c" if cx else "r"))
-                        m = wl.abs_of_history(cfg0, ops, reports)
-                        exp = wl.expected_with_fill(cfg0, m)
-                        files = wl.dump_files(chdir)
-                        # a file exists only if at least one slot was written
-                        want_files = sorted({wl.F_of(cfg0, k) for k in m})
-                        if [f["ms"] for f in files] != want_files:
-                            res.violation("file-set-wrong", "files exist that hold no written slot (or are missing)",
-                                          hist, want_files, [f["ms"] for f in files])
-                        for f in files:
-                            lo, hi = wl.file_start(cfg0, f["ms"]), wl.file_start(cfg0, f["ms"] + cfg0.fc)
-                            if f["rows"] != [(lo, 0)] or f["data"].shape[0] != hi - lo:
-                                res.violation("not-one-full-block", "a continuous file does not expose every slot of its window as a single block",
-                                              dict(hist, file=f["name"]), [[(lo, 0)], hi - lo], [f["rows"], f["data"].shape[0]])
-                                continue
-                            tags = [exp.get(k, -1) for k in range(lo, hi)]
-                            if not wl.arrays_equal(cfg0, wl.enc(cfg0, tags), f["data"]):
-                                bad = [k for k in range(lo, hi) if exp.get(k, -1) == -1]
-                                sig = "fill-not-missing-value:%s%s%d" % (order, kind, size)
-                                res.violation(sig, "never-written slots do not read as the documented missing value (or written data differs)",
-                                              dict(hist, file=f["name"]), "missing value %r at %r" % (wl.missing_value(cfg0), bad[:4]),
-                                              repr(f["data"][:4].tolist())[:300])
-                        # through the reader
-                        r = digital_rf.DigitalRFReader(os.path.dirname(chdir))
-                        b = r.get_bounds("ch")
-                        if files:
-                            lo = wl.file_start(cfg0, files[0]["ms"])
-                            hi = wl.file_start(cfg0, files[-1]["ms"] + cfg0.fc) - 1
-                            got = r.read(lo, hi, "ch")
-                            runs = wl.runs_of(exp, lo, hi)
-                            ok = sorted(int(k) for k in got) == [s for s, _ in runs] and all(
-                                wl.arrays_equal(cfg0, wl.enc(cfg0, t), np.asarray(got[s]).reshape(len(t), -1) if not cx else got[s])
-                                for s, t in runs) if True else False
-                            if not ok:
-                                res.violation("reader-fill-differs:%s%s%d" % (order, kind, size),
-                                              "DigitalRFReader.read over whole files does not return written data + missing values",
-                                              hist, [(s, len(t)) for s, t in runs], sorted((int(k), len(v)) for k, v in got.items()))
+                    if (kind, size) in (("i", 2), ("f", 4), ("u", 8)):
+                        # windows of unequal size: 25 Hz with 100 ms files = 2.5 samples per file; 200/3 Hz, 400 ms
+                        cfgs.append(wl.Cfg(25, 1, 1, 100, 37500000000 + 1, True, 0, False, kind, size, order, cx, nsub))
+                        cfgs.append(wl.Cfg(200, 3, 2, 400, 100000000000 + 5, True, 0, False, kind, size, order, cx, nsub))
+                    for cfg0 in cfgs:
+                      for lname, segs in layouts(cfg0).items():
+                          n_cells += 1
+                          chdir = os.path.join(work, "c%d" % n_cells, "ch")
+                          ops = []
+                          tag = 1
+                          for (s, ln) in segs:
+                              ops.append(("w", s, ln, tag))
+                              tag += ln
+                          ops.append(("c",))
+                          reports, w = wl.run_impl(cfg0, ops, chdir)
+                          hist = {"cfg": cfg0.as_dict(), "layout": lname, "ops": [list(o) for o in ops]}
+                          res.case((cfg0.key(), lname))
+                          res.count("cell:%s%d%s%s" % (kind, size, order, "c" if cx else "r"))
+                          m = wl.abs_of_history(cfg0, ops, reports)
+                          exp = wl.expected_with_fill(cfg0, m)
+                          files = wl.dump_files(chdir)
+                          # a file exists only if at least one slot was written
+                          want_files = sorted({wl.F_of(cfg0, k) for k in m})
+                          if [f["ms"] for f in files] != want_files:
+                              res.violation("file-set-wrong", "files exist that hold no written slot (or are missing)",
+                                            hist, want_files, [f["ms"] for f in files])
+                          for f in files:
+                              lo, hi = wl.file_start(cfg0, f["ms"]), wl.file_start(cfg0, f["ms"] + cfg0.fc)
+                              if f["rows"] != [(lo, 0)] or f["data"].shape[0] != hi - lo:
+                                  res.violation("not-one-full-block", "a continuous file does not expose every slot of its window as a single block",
+                                                dict(hist, file=f["name"]), [[(lo, 0)], hi - lo], [f["rows"], f["data"].shape[0]])
+                                  continue
+                              tags = [exp.get(k, -1) for k in range(lo, hi)]
+                              if not wl.arrays_equal(cfg0, wl.enc(cfg0, tags), f["data"]):
+                                  bad = [k for k in range(lo, hi) if exp.get(k, -1) == -1]
+                                  sig = "fill-not-missing-value:%s%s%d" % (order, kind, size)
+                                  res.violation(sig, "never-written slots do not read as the documented missing value (or written data differs)",
+                                                dict(hist, file=f["name"]), "missing value %r at %r" % (wl.missing_value(cfg0), bad[:4]),
+                                                repr(f["data"][:4].tolist())[:300])
+                          # through the reader
+                          r = digital_rf.DigitalRFReader(os.path.dirname(chdir))
+                          b = r.get_bounds("ch")
+                          if files:
+                              lo = wl.file_start(cfg0, files[0]["ms"])
+                              hi = wl.file_start(cfg0, files[-1]["ms"] + cfg0.fc) - 1
+                              got = r.read(lo, hi, "ch")
+                              runs = wl.runs_of(exp, lo, hi)
+                              ok = sorted(int(k) for k in got) == [s for s, _ in runs] and all(
+                                  wl.arrays_equal(cfg0, wl.enc(cfg0, t), np.asarray(got[s]).reshape(len(t), -1) if not cx else got[s])
+                                  for s, t in runs) if True else False
+                              if not ok:
+                                  res.violation("reader-fill-differs:%s%s%d" % (order, kind, size),
+                                                "DigitalRFReader.read over whole files does not return written data + missing values",
+                                                hist, [(s, len(t)) for s, t in runs], sorted((int(k), len(v)) for k, v in got.items()))
     res.sample({"cells_x_layouts": n_cells})
 
     # chunked continuous == gapped representation (same filters), and model correspondence in all modes
